@@ -56,12 +56,21 @@ def generate(prop, seed, idx, opts):
     return {"property": prop, "engine": name, "origin_seed": seed, "run_index": idx, "config": cfg, "threads": threads}
 
 
-def execute(rec):
+def execute(rec, gc_monitor=False):
+    """gc_monitor (C19, full-stack phase): the real gc switch is put in the configured initial state; at every Z3
+    check (certainly inside a condom'd call) it must be off, at quiescence it must be what it was and the
+    in-progress counter zero."""
     import claripy
     import claripy.backends.backend_z3 as bz
 
     cfg = rec["config"]
     setup_run(claripy, cfg)
+    gcstate = {"violation": None, "inside_checks": 0, "in_progress": 0, "max_in_progress": 0}
+    if gc_monitor:
+        gc_initial = bool(cfg.get("gc_initially_enabled", True))
+        (gc.enable if gc_initial else gc.disable)()
+        if bz._active_z3_calls != 0:
+            bz._active_z3_calls = 0
     sched = Scheduler(cfg["sched_seed"], policy=cfg.get("policy", "random"), switch_pct=100, max_steps=4000000)
     sched.expected_steps = 300
     lock = SimLock(sched)
@@ -75,8 +84,42 @@ def execute(rec):
     confinement = {"checks": 0, "violations": []}
     zb = claripy.backends.z3
 
+    def gc_invariant(tid, where):
+        # "in progress" is counted by the harness around the real guard functions (a thread has returned from _enter_z3
+        # and not yet called _exit_z3), so the invariant does not depend on how the guard orders its own updates.
+        # Calls that do not go through the guard (_satisfiable, _solution, ... are not condom'd in this tree) are not
+        # calls in progress in C19's sense.
+        if gcstate["in_progress"] >= 1:
+            gcstate["inside_checks"] += 1
+            if gc.isenabled():
+                raise Violation("gc-enabled-while-call-in-progress", {"op": "schedule", "cls": "backend_z3",
+                                                                      "in_progress": gcstate["in_progress"],
+                                                                      "at": [str(where[0])[-60:], where[1]]})
+        if bz._active_z3_calls < 0:
+            raise Violation("active-count-negative", {"op": "schedule", "cls": "backend_z3", "active": bz._active_z3_calls})
+
+    saved_guard = (bz._enter_z3, bz._exit_z3)
+    if gc_monitor:
+        real_enter, real_exit = saved_guard
+
+        def enter_w():
+            real_enter()
+            gcstate["in_progress"] += 1
+            gcstate["max_in_progress"] = max(gcstate["max_in_progress"], gcstate["in_progress"])
+
+        def exit_w():
+            gcstate["in_progress"] -= 1
+            real_exit()
+
+        bz._enter_z3, bz._exit_z3 = enter_w, exit_w
+
+    if gc_monitor:
+        sched.on_step = gc_invariant
+
     def on_check(slf, assumptions):
         confinement["checks"] += 1
+        if gc_monitor:
+            gc_invariant(None, ("z3-check", 0))
         mine = zb._context  # the calling thread's own context
         if slf.ctx is not mine:
             confinement["violations"].append("z3.Solver belongs to another thread's context")
@@ -112,7 +155,20 @@ def execute(rec):
         sched.unwatch()
         bz._gc_lock = saved_lock
         root.uninstall()
+        bz._enter_z3, bz._exit_z3 = saved_guard
+        if gc_monitor:
+            gc_final, active_final = gc.isenabled(), bz._active_z3_calls
+            bz._active_z3_calls = 0
+            bz._gc_was_enabled = False
+            gc.enable()
     out = {"status": "ok"}
+    if gc_monitor and failure is None:
+        if gc_final != gc_initial:
+            failure = Violation("gc-flag-not-restored", {"op": "schedule", "cls": "backend_z3", "initial": gc_initial,
+                                                         "final": gc_final})
+        elif active_final != 0:
+            failure = Violation("active-count-not-zero-at-quiescence", {"op": "schedule", "cls": "backend_z3",
+                                                                        "active": active_final})
     if failure is not None:
         if isinstance(failure, Violation):
             tix = next((i for i, m in enumerate(machines) if getattr(m, "cur_idx", None) is not None and
@@ -156,6 +212,10 @@ def execute(rec):
     out["handles"] = sorted({h.cls for m in machines for h in m.handles})
     out["cov"] = {"threads_%d" % len(machines): 1, "contended_runs": 1 if lock.contended else 0,
                   "main_actor_runs": 1 if cfg.get("main_actor") else 0}
+    if gc_monitor:
+        out["stats"]["queries"] = gcstate["inside_checks"]
+        out["cov"]["fullstack_runs"] = 1
+        out["cov"]["fullstack_overlap_runs"] = 1 if gcstate["max_in_progress"] >= 2 else 0
     out["switch_log"] = sched.switch_log[:40]
     gc.collect()
     return out
